@@ -125,13 +125,21 @@ func runC15(e *Env) {
 
 func c15Case(t *T) {
 	r := t.R
-	router := rux.New()
+	var opts []func(*rux.Router)
+	cacheCap := -1
+	if chance(r, 1, 2) {
+		cacheCap = pick(r, []int{1, 2, 3, 1000})
+		opts = append(opts, rux.CachingWithNum(uint16(cacheCap)))
+	}
+	router := rux.New(opts...)
 	nNames := 1 + r.IntN(3)
 	var specs []*namedRouteSpec
 	latest := map[string]*namedRouteSpec{}
 	var log []string
 	var failing []string
-	t.Describe(func() any { return map[string]any{"registrations": log, "failing": failing} })
+	t.Describe(func() any {
+		return map[string]any{"registrations": log, "failing": failing, "route_cache_capacity": cacheCap}
+	})
 	k := 0
 	for i := 0; i < nNames; i++ {
 		name := fmt.Sprintf("name%d", i)
@@ -292,6 +300,9 @@ func c15Case(t *T) {
 					}
 					// dispatch
 					route, ps, _ := router.Match("GET", parsed.Path)
+					if route != nil && route != ns.route && route.Path() == ns.route.Path() && route.Name() == ns.route.Name() {
+						route = ns.route // a cache hit answers with the cached copy of that very route
+					}
 					if route != nil && route != ns.route && ns.VarFirst {
 						// a variable-first route whose value spells a sibling's literal first segment: the
 						// sibling matches the same path and the documented priority (C01) prefers it. Not a
